@@ -124,6 +124,16 @@ class Interp:
             return self.d.unknown()
         return self.d.join(a, b)
 
+    def merge(self, cond, a, b):
+        """value of a variable after `if cond: (a) else: (b)`; domains that keep the condition implement `merge`"""
+        if a is b or (not isinstance(a, Seq) and not isinstance(b, Seq) and a == b):
+            return a
+        if isinstance(a, Seq) and isinstance(b, Seq) and len(a) == len(b):
+            return Seq(self.merge(cond, x, y) for x, y in zip(a, b))
+        if hasattr(self.d, "merge") and not isinstance(a, Seq) and not isinstance(b, Seq):
+            return self.d.merge(cond, a, b)
+        return self.join(a, b)
+
     def _block(self, body, env, rets):
         """returns True when every path through the block returned"""
         for st in body:
@@ -150,6 +160,7 @@ class Interp:
                         return True
                     continue
                 e1, e2 = dict(env), dict(env)
+                cond = self.ev(st.test, env)
                 r1 = self._block(st.body, e1, rets)
                 r2 = self._block(st.orelse, e2, rets)
                 if r1 and r2:
@@ -165,7 +176,7 @@ class Interp:
                         if k.startswith("@"):
                             continue
                         if k in e1 and k in e2:
-                            env[k] = self.join(e1[k], e2[k])
+                            env[k] = self.merge(cond, e1[k], e2[k])
                         else:
                             env[k] = self.d.unknown()
             elif isinstance(st, (ast.With,)):
@@ -230,7 +241,7 @@ class Interp:
             known = d.truth(self.ev(e.test, env))
             if known is not None:
                 return self.ev(e.body if known else e.orelse, env)
-            return self.join(self.ev(e.body, env), self.ev(e.orelse, env))
+            return self.merge(self.ev(e.test, env), self.ev(e.body, env), self.ev(e.orelse, env))
         if isinstance(e, ast.Subscript):
             recv = self.ev(e.value, env)
             idx = const_value(e.slice)
@@ -383,6 +394,32 @@ class TermDomain(Domain):
                 alts.add(x)
         return ("phi", tuple(sorted(alts, key=repr)))
 
+    def merge(self, cond, a, b):
+        if a == b:
+            return a
+        t, f = ("c", True), ("c", False)
+        if (a, b) == (t, f):
+            return cond
+        if (a, b) == (f, t):
+            return self.negate(cond)
+        if isinstance(cond, tuple) and len(cond) == 3 and cond[0] == "u" and cond[1] == "not":
+            return ("ite", cond[2], b, a)
+        return ("ite", cond, a, b)
+
+    def negate(self, c):
+        if isinstance(c, tuple) and len(c) == 4 and c[0] == "cmp":
+            inv = {"in": "notin", "notin": "in", "eq": "ne", "ne": "eq", "is": "isnot", "isnot": "is"}
+            if c[1] in inv:
+                return ("cmp", inv[c[1]], c[2], c[3])
+            if c[1] == "lt":
+                return ("cmp", "le", c[3], c[2])       # not (a < b)  ==  b <= a
+            if c[1] == "le":
+                return ("cmp", "lt", c[3], c[2])
+        if isinstance(c, tuple) and len(c) == 3 and c[0] == "u" and c[1] == "not":
+            return c[2]
+        return ("u", "not", c)
+
+
     def binop(self, op, a, b, node):
         name = OP_NAMES.get(type(op), type(op).__name__)
         if name in ("+", "*", "&", "|") and repr(b) < repr(a):
@@ -394,6 +431,8 @@ class TermDomain(Domain):
             return ("c", -a[1])
         if isinstance(op, ast.UAdd):
             return a
+        if isinstance(op, ast.Not):
+            return self.negate(a)
         return ("u", type(op).__name__.lower(), a)
 
     def compare(self, node, vals):
@@ -402,13 +441,37 @@ class TermDomain(Domain):
         a, b = vals
         op = type(node.ops[0])
         if op is ast.Gt:
-            return ("cmp", "lt", b, a)
+            return self._emptiness(("cmp", "lt", b, a))
         if op is ast.GtE:
-            return ("cmp", "le", b, a)
+            return self._emptiness(("cmp", "le", b, a))
         name = CMP_NAMES.get(op, op.__name__)
         if name in ("eq", "ne") and repr(b) < repr(a):
             a, b = b, a
-        return ("cmp", name, a, b)
+        return self._emptiness(("cmp", name, a, b))
+
+    @staticmethod
+    def _size_of(z):
+        if isinstance(z, tuple) and len(z) == 3 and z[0] == "attr" and z[2] == "size":
+            return z[1]
+        if isinstance(z, tuple) and len(z) == 4 and z[0] == "call" and z[1] == "len" and len(z[2]) == 1:
+            return z[2][0]
+        return None
+
+    def _emptiness(self, c):
+        """len(x) == 0, x.size == 0, 0 < len(x), ... -> ("empty", x) or its negation"""
+        _, name, a, b = c
+        for zero, other, flip in ((a, b, False), (b, a, True)):
+            x = self._size_of(other)
+            if zero == ("c", 0) and x is not None:
+                if name == "eq":
+                    return ("empty", x)
+                if name == "ne":
+                    return ("u", "not", ("empty", x))
+                if name == "lt" and not flip:            # 0 < size
+                    return ("u", "not", ("empty", x))
+                if name == "le" and flip:                # size <= 0
+                    return ("empty", x)
+        return c
 
     def boolop(self, node, vals):
         return ("bool", "and" if isinstance(node.op, ast.And) else "or", tuple(vals))
@@ -476,9 +539,11 @@ def term_walk(t):
 
 
 def term_alternatives(t):
-    """the alternatives of a joined value (returns of different paths), or the value itself"""
+    """the alternatives of a joined value (returns of different paths, arms of a conditional), or the value itself"""
     if isinstance(t, tuple) and t and t[0] == "phi":
-        return list(t[1])
+        return [y for x in t[1] for y in term_alternatives(x)]
+    if isinstance(t, tuple) and len(t) == 4 and t[0] == "ite":
+        return term_alternatives(t[2]) + term_alternatives(t[3])
     return [t]
 
 
